@@ -86,8 +86,8 @@ def build_leaf(leaf, rnd=None):
     # several tasks share one operation (as in real tracks); the operation's name differs from every task name
     op = track.Operation(name="op-" + leaf["type"], operation_type=leaf["type"], params={"index": "i-" + leaf["type"]})
     tags = list(leaf["tags"])
-    if rnd is not None and len(tags) == 1 and rnd.random() < 0.5:
-        tags = tags[0]  # track files may give a single tag as a string
+    if rnd is not None and len(tags) == 1 and rnd.random() < 0.6:
+        tags = tags[0]  # allowed track syntax: a single tag written as ONE STRING ("tags": "index")
     params = {"name": leaf["name"], "clients": leaf["clients"]}
     if rnd is not None and rnd.random() < 0.3:
         params["target-throughput"] = rnd.choice([10, 100])
@@ -124,7 +124,8 @@ def project_leaf(t, with_fp=False):
         "k": "task",
         "name": str(t.name),
         "type": str(t.operation.type),
-        "tags": [str(x) for x in t.tags],
+        # representation-tolerant: a single tag kept as a plain string is the one-element tag list
+        "tags": [t.tags] if isinstance(t.tags, str) else [str(x) for x in t.tags],
         "clients": int(t.clients),
         "cp": bool(t.completes_parent),
         "acp": bool(t.any_completes_parent),
@@ -263,6 +264,18 @@ def run_filter(schedules, filters, mode):
     return [c.schedule for c in res.challenges]
 
 
+def with_fingerprints(written, objs):
+    """The WRITTEN schedule (what the track file says: the reference for every expected result) with the fingerprint of
+    the further properties of the real objects built from it attached to every leaf."""
+    res = []
+    for el, o in zip(written, objs):
+        if el["k"] == "par":
+            res.append({"k": "par", "cap": el["cap"], "tasks": [dict(t, fp=fingerprint(x)) for t, x in zip(el["tasks"], o.tasks)]})
+        else:
+            res.append(dict(el, fp=fingerprint(o)))
+    return res
+
+
 def has_empty_parallel(s):
     return any(el["k"] == "par" and not el["tasks"] for el in s)
 
@@ -278,7 +291,8 @@ def leaves(s):
 # seeded random schedules (wider than the TLC bounds)
 # ---------------------------------------------------------------------------------------------------
 TYPES = ["bulk", "search", "force-merge", "custom-type"]
-TAGS = ["setup", "read-op", "write-op", "x"]
+# some tags are proper substrings of others: a tag filter must compare whole tags
+TAGS = ["index", "reindex", "post-index-stats", "search", "search-heavy", "setup"]
 
 
 def random_schedule(rnd, max_elements=6, max_clients=64, max_par=4):
@@ -293,7 +307,7 @@ def random_schedule(rnd, max_elements=6, max_clients=64, max_par=4):
                 "k": "task",
                 "name": "t%d" % n,
                 "type": rnd.choice(TYPES),
-                "tags": rnd.sample(TAGS, rnd.choice([0, 0, 1, 2])),
+                "tags": rnd.sample(TAGS, rnd.choice([0, 1, 1, 2])),
                 "clients": rnd.randint(1, max_clients if big else min(max_clients, 6)),
                 "cp": False,
                 "acp": False,
